@@ -314,3 +314,98 @@ Section SortFacts.
     subst s2. exists s1. auto.
   Qed.
 End SortFacts.
+
+(* ---------- the sort is parametric: related inputs (same comparisons) give related outputs *)
+Section SortRel.
+  Context {A B : Type}.
+  Variable lta : A -> A -> option bool.
+  Variable ltb : B -> B -> option bool.
+  Variable Q : A -> B -> Prop.
+  Hypothesis Hlt : forall a a' b b', Q a b -> Q a' b' -> lta a a' = ltb b b'.
+
+  Definition orel (x : option (list A)) (y : option (list B)) : Prop :=
+    match x, y with Some l, Some l' => Forall2 Q l l' | None, None => True | _, _ => False end.
+
+  Lemma F2_firstn : forall n l l', Forall2 Q l l' -> Forall2 Q (firstn n l) (firstn n l').
+  Proof. induction n; intros l l' HF; cbn; [constructor|]. destruct HF; constructor; auto. Qed.
+  Lemma F2_skipn : forall n l l', Forall2 Q l l' -> Forall2 Q (skipn n l) (skipn n l').
+  Proof. induction n; intros l l' HF; cbn; [exact HF|]. destruct HF; [constructor|auto]. Qed.
+  Lemma F2_len : forall l l', Forall2 Q l l' -> List.length l = List.length l'.
+  Proof. induction 1; cbn; auto. Qed.
+  Lemma F2_rev : forall l l', Forall2 Q l l' -> Forall2 Q (rev l) (rev l').
+  Proof. induction 1; cbn; [constructor|]. apply Forall2_app; auto. Qed.
+
+  Lemma bins_rel : forall f x y l l', Q x y -> Forall2 Q l l' -> orel (bins lta f x l) (bins ltb f y l').
+  Proof.
+    induction f as [|f IH]; intros x y l l' Hxy HF.
+    - destruct HF; cbn; [repeat constructor; auto|exact Logic.I].
+    - destruct HF as [|a b l l' Hab HF]; [cbn; repeat constructor; auto|].
+      assert (HF' : Forall2 Q (a :: l) (b :: l')) by (constructor; auto).
+      rewrite !bins_S by discriminate.
+      rewrite <- (F2_len _ _ HF').
+      set (k := Nat.div2 (List.length (a :: l))).
+      pose proof (F2_skipn k _ _ HF') as Hs. pose proof (F2_firstn k _ _ HF') as Hf.
+      destruct Hs as [|p q sb sb' Hpq Hsb]; [exact Logic.I|].
+      rewrite (Hlt x p y q Hxy Hpq). destruct (ltb y q) as [[|]|]; [| |exact Logic.I].
+      + specialize (IH x y _ _ Hxy Hf). unfold orel in *.
+        destruct (bins lta f x (firstn k (a :: l))), (bins ltb f y (firstn k (b :: l'))); cbn; try contradiction; auto.
+        apply Forall2_app; auto.
+      + specialize (IH x y _ _ Hxy Hsb). unfold orel in *.
+        destruct (bins lta f x sb), (bins ltb f y sb'); cbn; try contradiction; auto.
+        apply Forall2_app; auto.
+  Qed.
+
+  Definition prel (x : option (list A * list A)) (y : option (list B * list B)) : Prop :=
+    match x, y with
+    | Some (r, s), Some (r', s') => Forall2 Q r r' /\ Forall2 Q s s'
+    | None, None => True
+    | _, _ => False
+    end.
+
+  Lemma run_desc_rel : forall l l' p q acc acc', Forall2 Q l l' -> Q p q -> Forall2 Q acc acc' ->
+      prel (run_desc lta p acc l) (run_desc ltb q acc' l').
+  Proof.
+    intros l l' p q acc acc' HF. revert p q acc acc'.
+    induction HF as [|c c' l l' Hc HF IH]; intros p q acc acc' Hpq Hacc; cbn.
+    - split; [auto|constructor].
+    - rewrite (Hlt c p c' q Hc Hpq). destruct (ltb c' q) as [[|]|]; [| |exact Logic.I].
+      + apply IH; auto.
+      + split; auto.
+  Qed.
+
+  Lemma run_asc_rel : forall l l' p q acc acc', Forall2 Q l l' -> Q p q -> Forall2 Q acc acc' ->
+      prel (run_asc lta p acc l) (run_asc ltb q acc' l').
+  Proof.
+    intros l l' p q acc acc' HF. revert p q acc acc'.
+    induction HF as [|c c' l l' Hc HF IH]; intros p q acc acc' Hpq Hacc; cbn.
+    - split; [apply F2_rev; auto|constructor].
+    - rewrite (Hlt c p c' q Hc Hpq). destruct (ltb c' q) as [[|]|]; [| |exact Logic.I].
+      + split; [apply F2_rev; auto|constructor; auto].
+      + apply IH; auto.
+  Qed.
+
+  Lemma fold_ins_rel : forall rest rest', Forall2 Q rest rest' -> forall r r', orel r r' ->
+      orel (fold_left (ins_step lta) rest r) (fold_left (ins_step ltb) rest' r').
+  Proof.
+    induction 1 as [|e e' rest rest' He HF IH]; intros r r' Hr; cbn; [exact Hr|].
+    apply IH. destruct r as [a|], r' as [a'|]; cbn in *; try contradiction; auto.
+    rewrite <- (F2_len _ _ Hr). apply bins_rel; auto.
+  Qed.
+
+  Theorem py_sorted_rel : forall l l', Forall2 Q l l' -> orel (py_sorted lta l) (py_sorted ltb l').
+  Proof.
+    intros l l' HF. destruct HF as [|x x' l l' Hx HF]; [cbn; constructor|].
+    destruct HF as [|y y' l l' Hy HF]; [cbn; repeat constructor; auto|].
+    cbn [py_sorted]. rewrite (Hlt y x y' x' Hy Hx). destruct (ltb y' x') as [[|]|]; [| |exact Logic.I].
+    - pose proof (run_desc_rel l l' y y' [y; x] [y'; x'] HF Hy) as Hr.
+      destruct (run_desc lta y [y; x] l) as [[r s]|], (run_desc ltb y' [y'; x'] l') as [[r' s']|];
+        cbn in Hr; try (exfalso; apply Hr; repeat constructor; auto; fail).
+      + destruct Hr as [Hr Hs]; [repeat constructor; auto|]. apply fold_ins_rel; auto.
+      + exact Logic.I.
+    - pose proof (run_asc_rel l l' y y' [y; x] [y'; x'] HF Hy) as Hr.
+      destruct (run_asc lta y [y; x] l) as [[r s]|], (run_asc ltb y' [y'; x'] l') as [[r' s']|];
+        cbn in Hr; try (exfalso; apply Hr; repeat constructor; auto; fail).
+      + destruct Hr as [Hr Hs]; [repeat constructor; auto|]. apply fold_ins_rel; auto.
+      + exact Logic.I.
+  Qed.
+End SortRel.
